@@ -13,7 +13,7 @@ try:
 except Exception as e:
     meta = {"note": "agent meta.json unreadable: %s" % e}
 log = ""
-for lf in ("/tmp/confirm1.log", "/tmp/confirm2.log", "/tmp/confirm3.log", "/tmp/confirm4.log", "/tmp/confirm5.log"):
+for lf in ("/tmp/confirm1.log", "/tmp/confirm2.log", "/tmp/confirm3.log", "/tmp/confirm4.log", "/tmp/confirm5.log", "/tmp/confirm6.log"):
     if os.path.exists(lf):
         txt = open(lf).read()
         key = "== " + os.path.basename(wt).replace("seed-", "")
